@@ -595,6 +595,27 @@ func (e *Env) ghostField(xv Val, name string) (Val, error) {
 			}
 		}
 	}
+	if gf == nil && classify(owner) != KIface && xv.T != nil {
+		// a concrete object seen through the ghost state of an interface it implements (e.g. a *bufio.Reader as the
+		// io.ByteReader it is passed as): same object identity, the interface's component
+		for i := range e.x.cs.Ghosts {
+			g := &e.x.cs.Ghosts[i]
+			if g.Name != name {
+				continue
+			}
+			gt, err := e.x.prog.LookupType(g.Owner, e.pkg)
+			if pk, ok := e.x.prog.ByPath[g.Pkg]; ok {
+				if gt2, err2 := e.x.prog.LookupType(g.Owner, pk.Types); err2 == nil {
+					gt, err = gt2, nil
+				}
+			}
+			if err == nil && types.IsInterface(gt) && types.AssignableTo(xv.T, gt) {
+				gf = g
+				owner = types.Unalias(gt)
+				break
+			}
+		}
+	}
 	if gf == nil {
 		return Val{}, fmt.Errorf("no ghost field $%s on %s", name, owner)
 	}
